@@ -1480,6 +1480,20 @@ pub fn run_t2(profile: &T2Profile, tape: Tape, want_sample: bool) -> RunOut {
         Expect::Legal => {
             if let Some(g) = &err_goaway {
                 violations.push(Violation::new("C09", "goaway-on-legal-traffic", format!("{}:{}:{}", who, plan.label, g.1), format!("[{}] {} sent GOAWAY(code {}) although the peer sent only legal traffic", plan.label, who, g.1), step));
+                // C12: the frame E had just taken from the wire was well-formed (the scripted
+                // peer's serialiser and the reference parser agree on it); answering it with a
+                // framing-level connection error means E did not parse it to the same value
+                if matches!(profile.kind, T2Kind::Legal | T2Kind::Hpack) && (g.1 == 1 || g.1 == 6) {
+                    let k = mon.ep[e_side].goaway_out.iter().find(|x| x.1 == g.1).map(|x| x.2).unwrap_or(0);
+                    if k > 0 {
+                        if let Some(f) = mon.frames[p_side].get(k - 1) {
+                            let unusual = f.flags & (F_PADDED | F_PRIORITY) != 0 || f.payload.is_empty() || f.ty == CONTINUATION || f.ty > 9;
+                            if unusual {
+                                violations.push(Violation::new("C12", "well-formed-frame-rejected", format!("{}:{}", type_name(f.ty), if f.flags & F_PADDED != 0 { "padded" } else if f.flags & F_PRIORITY != 0 { "priority" } else if f.payload.is_empty() { "empty" } else { "other" }), format!("[{}] {} answered the well-formed frame {} with GOAWAY(code {})", plan.label, who, f.describe(), g.1), step));
+                            }
+                        }
+                    }
+                }
             }
             if let Some(Err(e)) = &conn_res {
                 if e.is_library {
